@@ -1,4 +1,4 @@
-import PrimaiteModel.Model.FileSystemApi
+import PrimaiteModel.Model.FileSystemNode
 open Primaite Primaite.FileSystem
 
 /-- `~` is the empty name on the wire. -/
@@ -50,24 +50,44 @@ def parseApi (s : State) : List String → Option ApiOp
   | ["rmid", wf, wx] => some (.removeFileById (folderIdAt s wf) (fileIdAt s wf wx))
   | _ => none
 
-def answer (x' : XState) (o : Out) : String := sOut o ++ " | " ++ dump x' ++ " | " ++ sDesc (describe x'.s)
+/-- The node part of the dump: power flag and node scan countdown. -/
+def sNode (n : NState) : String := s!"p={showBool n.on}/{n.scanCd}"
 
-def stepLine (x : XState) : List String → XState × String
+def answer (n' : NState) (o : Out) : String :=
+  sOut o ++ " | " ++ dump n'.x ++ " " ++ sNode n' ++ " | " ++ sDesc (describe n'.x.s)
+
+def pBool : String → Option Bool
+  | "1" => some true | "0" => some false | _ => none
+
+/-- The wire: `new <restore|-> <scan|->` (a fresh file system under a node that is ON), `node <on> <scanDur>` (power flag
+and `node_scan_duration` of that node), then events: `req <path…>`, `api <kind> …`, `osscan`, `power <0|1>`, `pre`,
+`tick [<0|1>]` (`Node.apply_timestep`; the flag is the power state the call tests, default: unchanged). -/
+def stepLine (n : NState) : List String → NState × String
   | ["new", d, sc] =>
     match parseOpt String.toInt? d, parseOpt String.toInt? sc with
-    | some d, some sc => (xinit d sc, "ok")
-    | _, _ => (x, "bad-op")
-  | ["dump"] => (x, dump x)
-  | ["pre"] => let r := stepX x .preTick; (r.1, answer r.1 r.2)
-  | ["tick"] => let r := stepX x .tick; (r.1, answer r.1 r.2)
+    | some d, some sc => (ninit d sc, "ok")
+    | _, _ => (n, "bad-op")
+  | ["node", b, dur] =>
+    match pBool b, dur.toNat? with
+    | some b, some dur => ({ n with on := b, scanDur := dur }, "ok")
+    | _, _ => (n, "bad-op")
+  | ["dump"] => (n, dump n.x ++ " " ++ sNode n)
+  | ["pre"] => let r := nstep n .preTimestep; (r.1, answer r.1 r.2)
+  | ["tick"] => let r := nstep n (.applyTimestep n.on); (r.1, answer r.1 r.2)
+  | ["tick", b] =>
+    match pBool b with
+    | some b => let r := nstep n (.applyTimestep b); (r.1, answer r.1 r.2)
+    | none => (n, "bad-op")
+  | ["power", b] =>
+    match pBool b with
+    | some b => let r := nstep n (.power b); (r.1, answer r.1 r.2)
+    | none => (n, "bad-op")
+  | ["osscan"] => let r := nstep n .osScan; (r.1, answer r.1 r.2)
   | "api" :: ws =>
-    match parseApi x.s ws with
-    | some op => let r := stepXApi x op; (r.1, answer r.1 r.2)
-    | none => (x, "bad-op")
-  | "req" :: ws =>
-    match resolve x.s (ws.map pName) with
-    | .inl op => let r := stepX x op; (r.1, answer r.1 r.2)
-    | .inr o => (x, answer x o)
-  | _ => (x, "bad-op")
+    match parseApi n.x.s ws with
+    | some op => let r := nstep n (.api op); (r.1, answer r.1 r.2)
+    | none => (n, "bad-op")
+  | "req" :: ws => let r := nstep n (.req (ws.map pName)); (r.1, answer r.1 r.2)
+  | _ => (n, "bad-op")
 
-def main : IO Unit := runDriver (xinit none none) stepLine
+def main : IO Unit := runDriver (ninit none none) stepLine
